@@ -13,6 +13,7 @@ pub mod c09;
 pub mod c10;
 pub mod c12;
 pub mod c13;
+pub mod c14;
 pub mod c15;
 pub mod c16;
 pub mod c17;
@@ -20,7 +21,7 @@ pub mod c18;
 pub mod c19;
 pub mod c20;
 
-pub const ALL: &[&str] = &["C01", "C02", "C03", "C04", "C05", "C06", "C08", "C09", "C10", "C12", "C13", "C15", "C16", "C17", "C18", "C19", "C20"];
+pub const ALL: &[&str] = &["C01", "C02", "C03", "C04", "C05", "C06", "C08", "C09", "C10", "C12", "C13", "C14", "C15", "C16", "C17", "C18", "C19", "C20"];
 
 /// replay: Some(path) -> re-run the stored case (its "part" field selects the part)
 pub fn dispatch(prop: &str, tier: Tier, seed: u64, replay: Option<&str>) -> Option<Vec<PartReport>> {
@@ -38,6 +39,7 @@ pub fn dispatch(prop: &str, tier: Tier, seed: u64, replay: Option<&str>) -> Opti
         "C10" => c10::check(tier, seed, r),
         "C12" => c12::check(tier, seed, r),
         "C13" => c13::check(tier, seed, r),
+        "C14" => c14::check(tier, seed, r),
         "C15" => c15::check(tier, seed, r),
         "C16" => c16::check(tier, seed, r),
         "C17" => c17::check(tier, seed, r),
